@@ -135,6 +135,23 @@ func newEnvCreds(ctx *core.Ctx, mode string, rules []string, creds []reqmodel.Cr
 	if e.tlsOrig, err = rig.NewTLSPeer("tls-origin", &tls.Config{Certificates: []tls.Certificate{leaf}}, okResponder); err != nil {
 		return nil, err
 	}
+	if mode == "upstream-tunnel" {
+		// the upstream proxy of the SCHEME cases (scheme.go): records every head, answers requests in clear itself
+		// and tunnels CONNECT to the scripted origins, so that https requests routed through it are delivered
+		e.up.Close()
+		orig, tlsOrig := e.origin.Addr, e.tlsOrig.Addr
+		if e.up, err = rig.NewForwardProxy("upstream", func(target string) string {
+			switch target {
+			case "origin.test:443":
+				return tlsOrig
+			case "origin.test:80", "origin.test:8080":
+				return orig
+			}
+			return ""
+		}); err != nil {
+			return nil, err
+		}
+	}
 	caFile, err := e.ca.WriteFile(ctx.Root+"/.work", fmt.Sprintf("c01-ca-%d.pem", time.Now().UnixNano()))
 	if err != nil {
 		return nil, err
@@ -192,7 +209,7 @@ func newEnvCreds(ctx *core.Ctx, mode string, rules []string, creds []reqmodel.Cr
 			case "direct-deny", "gate-deny", "mitm-deny":
 				// refusal configurations (refuse.go): deny-domains, localhost denial, with / without the proxy's own basic auth
 				configureDeny(cfg, mode)
-			case "upstream":
+			case "upstream", "upstream-tunnel":
 				cfg.UpstreamProxy = rig.MustURL("http://upstream.test:3128")
 			case "upstream-auth":
 				u := rig.MustURL("http://upstream.test:3128")
@@ -213,7 +230,7 @@ func newEnvCreds(ctx *core.Ctx, mode string, rules []string, creds []reqmodel.Cr
 		e.cfg.HasAuth, e.cfg.AuthUser, e.cfg.AuthPass = true, gateUser, gatePass
 	case "direct-deny", "gate-deny", "mitm-deny":
 		denyModel(&e.cfg, mode)
-	case "upstream", "pac-upstream":
+	case "upstream", "upstream-tunnel", "pac-upstream":
 		e.cfg.Upstream = "upstream.test:3128"
 	case "upstream-auth":
 		e.cfg.Upstream = "upstream.test:3128"
@@ -381,7 +398,23 @@ func (e *env) runConn(ctx *core.Ctx, cc *connCase) {
 			// outside the modelled domain: reported, not gating
 			continue
 		}
+		// scheme and authority the request leaves the proxy with, and how the transport treats that scheme
+		// (Model/C01Scheme.lean reach)
+		rch, _ := askReach(ctx.Model, &e.cfg, &mctx, r)
+		ctx.Count("scheme/" + formLabel(r, mctx.Secure) + "/xfp=" + xfpLabel(r) + "/" + rch.Contact)
 		implSummary := summarise(peer, ex, responses[i], respErr[i])
+		if out.Kind == "fwd" && rch.Contact == "unsupported" {
+			// a scheme net/http's Transport does not speak (only an origin-form request whose X-Forwarded-Proto says
+			// so gets one: c01_unsupported_only_origin_form): refused by the transport before anything is dialled
+			// ("unsupported protocol scheme"); HTTPProxy.errorResponse has no handler for that error: 500 unexpected_error
+			if ex != nil {
+				ctx.Disagree("request of an unsupported scheme reached a hop", one, implSummary, "unsupported scheme "+rch.Scheme)
+			}
+			if responses[i] == nil || responses[i].Status != 500 {
+				ctx.Disagree("request of an unsupported scheme is answered 500", one, implSummary, "500")
+			}
+			continue
+		}
 		switch out.Kind {
 		case "refused", "badreq":
 			if ex != nil {
@@ -402,7 +435,9 @@ func (e *env) runConn(ctx *core.Ctx, cc *connCase) {
 		wantPeer := e.origin
 		if out.HopKind == "proxy" {
 			wantPeer = e.up
-		} else if isMITM(e.mode) {
+		} else if rch.Contact == "tls" {
+			// an https request (read inside an intercepted session, absolute-form https://, or origin-form with
+			// X-Forwarded-Proto: https) goes to the TLS origin, directly or through a tunnel of the upstream proxy
 			wantPeer = e.tlsOrig
 		}
 		obs := ex.Req
@@ -430,6 +465,9 @@ func (e *env) runConn(ctx *core.Ctx, cc *connCase) {
 		}
 		// the property evaluated directly on what the hop received (independent of the model)
 		for _, v := range specViolationsCreds(&e.cfg, e.creds, &mctx, r, obs) {
+			ctx.SpecFail(v.clause, v.class, one, implSummary, v.detail)
+		}
+		for _, v := range e.schemeViolations(&mctx, r, peer, obs) {
 			ctx.SpecFail(v.clause, v.class, one, implSummary, v.detail)
 		}
 		if responses[i] == nil || responses[i].Status != 200 {
